@@ -41,6 +41,9 @@ type XNode struct {
 	Default   []string
 	Units     string
 	Desc      string
+	// Exts: arguments of the extension statements the node carries (its own,
+	// then those of every uses statement that brought it along); compared as a set.
+	Exts []string
 	Key       string
 	HasList   bool
 	Min, Max  uint64
@@ -84,6 +87,7 @@ func (x *XNode) clone(parent *XNode) *XNode {
 	n := *x
 	n.Parent = parent
 	n.Default = append([]string(nil), x.Default...)
+	n.Exts = append([]string(nil), x.Exts...)
 	if x.Kids != nil {
 		n.Kids = map[string]*XNode{}
 		for k, v := range x.Kids {
@@ -272,9 +276,26 @@ func (c *compiler) addBody(parent *XNode, ctx *Mod, body []*Node) {
 				c.conflict("grouping %s uses itself", g.Name)
 				continue
 			}
+			before := map[*XNode]bool{}
+			for _, k := range parent.Kids {
+				before[k] = true
+			}
 			c.gstack = append(c.gstack, g)
 			c.addBody(parent, gm, g.Body)
 			c.gstack = c.gstack[:len(c.gstack)-1]
+			if n.Ext != "" {
+				// the uses statement's extension statements travel with every
+				// node the uses brings along
+				for _, k := range parent.Kids {
+					if !before[k] {
+						for _, a := range strings.Split(n.Ext, ",") {
+							if a != "" {
+								k.Exts = append(k.Exts, a)
+							}
+						}
+					}
+				}
+			}
 			continue
 		}
 		x := c.node(ctx, n)
@@ -308,6 +329,11 @@ func (c *compiler) addBody(parent *XNode, ctx *Mod, body []*Node) {
 func (c *compiler) node(ctx *Mod, n *Node) *XNode {
 	x := &XNode{Name: n.Name, Kind: n.Kind, Config: n.Config, Mandatory: n.Mandatory, Desc: n.Desc, Key: n.Key}
 	x.Default = append([]string(nil), n.Default...)
+	for _, a := range strings.Split(n.Ext, ",") {
+		if a != "" {
+			x.Exts = append(x.Exts, a)
+		}
+	}
 	switch n.Kind {
 	case KLeaf:
 		x.Type = c.ResolveType(ctx, n.Type)
